@@ -177,6 +177,38 @@ def judge_sim_path_covered(v, scen, impl, model, name, d1_text):
     return nviol
 
 
+def fp_probe(v, tier, seed, name="fp_probe"):
+    """finding D16: the snapshot's remaining timer delay is a rounded difference.  `vh fpprobe n` runs, on the real code, n clock /
+    firing-time pairs with a rounding gap (fl(c + fl(t - c)) < t) and n control pairs without one: snapshot, a handler sets a timer
+    with exactly the remaining delay, the simulator continues; is the simulator's firing order among those the checker explored?"""
+    import subprocess
+    from .common import VH, ENV
+    n = 6 if tier == "quick" else 60
+    p = subprocess.run([VH, "fpprobe", str(n)], capture_output=True, text=True, env=ENV, timeout=600)
+    rows = [dict(kv.split("=", 1) for kv in l.split()[1:]) | {"line": l} for l in p.stdout.splitlines() if l.startswith("fp ")]
+    gap = [r for r in rows if r["gap"] == "1"]; ctl = [r for r in rows if r["gap"] == "0"]
+    nviol = 0
+    bad_ctl = [r for r in ctl if r["covered"] != "1" or r["ok"] != "1"]
+    if p.returncode != 0 or len(ctl) < n or bad_ctl:
+        v.violation(f"{name}-control.txt", f"# property {v.pid}: after a snapshot the simulator fires timers in an order the checker never explores, "
+                    "without any rounding gap (control group of `vh fpprobe`)\n# replay: /verif/harness/target/debug/vh fpprobe 60\n"
+                    + "\n".join(r["line"] for r in bad_ctl[:5]) + (p.stderr[-2000:] if p.returncode else "") + "\n")
+        nviol += 1
+    uncovered = [r for r in gap if r["covered"] != "1"]
+    if uncovered:
+        if mc_checks.has_finding(v.pid, "D16-snapshot-remaining-rounding"):
+            v.known_finding(f"D16-snapshot-remaining-rounding: with a clock c and a pending timer firing at t such that fl(c + fl(t - c)) < t, a timer set "
+                            f"with delay fl(t - c) fires before the pending one in the simulator but never in the checker ({len(uncovered)} of {len(gap)} "
+                            f"probed pairs, e.g. c=0x{uncovered[0]['c']} t=0x{uncovered[0]['d']}: simulator {uncovered[0]['sim']}, checker {uncovered[0]['mc']})")
+        else:
+            v.violation(f"{name}-gap.txt", f"# property {v.pid}: the snapshot's rounded remaining delay hides a simulator order\n"
+                        + "\n".join(r["line"] for r in uncovered[:5]) + "\n")
+            nviol += 1
+    v.coverage.setdefault(name, {}).update({"pairs_with_rounding_gap": len(gap), "gap_pairs_uncovered": len(uncovered),
+                                            "control_pairs": len(ctl), "control_pairs_uncovered": len(bad_ctl)})
+    return nviol
+
+
 def gen_two_routes(rng):
     """C15: the same prefix performed in the simulator before the snapshot (route A) and in the preliminary callback (route B)"""
     topo, rules, locals_ = base_system(rng, dict(procs=(1, 3)))
